@@ -11,6 +11,9 @@ TARGETS = ['clastic.sinter.chain_argspec', 'clastic.sinter.make_chain', 'clastic
            'clastic.middleware.core.make_middleware_chain']
 
 CANARIES = [
+    {'name': 'execute-forgets-route-resources', 'file': 'clastic/route.py',
+     'old': "        injectables.update(self.resources)\n        injectables.update(kwargs)\n        return inject(self._execute, injectables)",
+     'new': "        injectables.update(kwargs)\n        return inject(self._execute, injectables)"},
     {'name': 'argspec-update-before-subtract', 'file': 'clastic/sinter.py',
      'old': "        required_sofar |= set(undefaulted) - provided_sofar\n        provided_sofar.update(p)\n",
      'new': "        provided_sofar.update(p)\n        required_sofar |= set(undefaulted) - provided_sofar\n"},
